@@ -1038,6 +1038,22 @@ def run_css(ctx, r, snap, lines, pend):
         except Exception as e:
             got = f"exc:{type(e).__name__}"
         want = [snap.idx[id(x)] for x in res]
+        # EngineSpec of Props/C10.lean, validated on the real soupsieve: limit k = the first k, limit 0/None = all, select_one = first
+        try:
+            k = r.choice([1, 2, 3])
+            lim = [snap.idx.get(id(x), -1) for x in el.select(sel, limit=k)]
+            lim0 = [snap.idx.get(id(x), -1) for x in el.select(sel, limit=r.choice([0, None]))]
+            one = el.select_one(sel)
+            one = None if one is None else snap.idx.get(id(one), -1)
+            if isinstance(got, list) and (lim != want[:k] or lim0 != want or one != (want[0] if want else None)):
+                ctx.violation("select(limit=k) / select_one are not the prefix / first of select()", case={"op": "css", "markup": str(snap.soup),
+                              "tree": snap.enc, "start": start, "selector": sel, "limit": k},
+                              expected=f"{show_res(want[:k])} ; {show_res(want)} ; {show_res(want[0] if want else None)}",
+                              observed=f"{show_res(lim)} ; {show_res(lim0)} ; {show_res(one)}", stream="css")
+            ctx.count("css:limit+select_one")
+        except Exception as e:
+            ctx.violation("select(limit=k)/select_one raised", case={"op": "css", "markup": str(snap.soup), "selector": sel},
+                          expected="no exception", observed=type(e).__name__, stream="css")
         ctx.case((snap.enc, start, sel) if want else None)
         ctx.count("css:" + ("combinator" if form is None else form.split("/")[0]))
         desc = {"op": "css", "markup": str(snap.soup), "tree": snap.enc, "start": start, "selector": sel}
@@ -1061,6 +1077,106 @@ def flush_css(ctx, drv, lines, pend):
                               observed=show_res(got), model=rep, stream="correspondence-css")
     lines.clear()
     pend.clear()
+
+
+# --------------------------------------------------------------------------------------------------
+# CSS dispatch: Tag.select / Tag.select_one / Tag.css.* -> soupsieve call arguments, with a recording stand-in engine
+# --------------------------------------------------------------------------------------------------
+class _FakeSieve:
+    """drop-in for the soupsieve module (css.py documents `api` as such): records every call"""
+
+    class SoupSieve:        # the class css.py tests precompiled selectors against
+        pass
+
+    def __init__(self):
+        self.calls = []
+
+    def _rec(self, fn, has_limit, select, tag, ns, *rest, **kw):
+        if has_limit:
+            limit, flags = rest
+        else:
+            limit, flags = "-", rest[0]
+        self.calls.append((fn, select, tag, ns, limit, flags, dict(kw)))
+        return [tag] if fn in ("select", "filter", "iselect") else tag
+
+    def select(self, select, tag, ns=None, limit=0, flags=0, **kw): return self._rec("select", True, select, tag, ns, limit, flags, **kw)
+    def iselect(self, select, tag, ns=None, limit=0, flags=0, **kw): return self._rec("iselect", True, select, tag, ns, limit, flags, **kw)
+    def select_one(self, select, tag, ns=None, flags=0, **kw): return self._rec("select_one", False, select, tag, ns, flags, **kw)
+    def closest(self, select, tag, ns=None, flags=0, **kw): return self._rec("closest", False, select, tag, ns, flags, **kw)
+    def match(self, select, tag, ns=None, flags=0, **kw): return self._rec("match", False, select, tag, ns, flags, **kw)
+    def filter(self, select, tag, ns=None, flags=0, **kw): return self._rec("filter", False, select, tag, ns, flags, **kw)
+
+    def compile(self, select, ns=None, flags=0, **kw):
+        self.calls.append(("compile", select, None, ns, "-", flags, dict(kw)))
+        return _FakeSieve.SoupSieve()
+
+    def escape(self, ident):
+        return ident
+
+
+def css_dispatch_stream(ctx: Ctx, drv: Driver):
+    """every entry point x selector kind x namespaces x limit x flags x extra keyword: the recorded soupsieve call against
+    BS.Css.dispatch"""
+    import itertools
+    import bs4.css as cssmod
+    from bs4 import BeautifulSoup, ResultSet
+    from bs4.css import CSS
+    soup = BeautifulSoup('<a xmlns:x="u"><b>t</b></a>', "html.parser")
+    tag = soup.a
+    tag._namespaces = {"x": "u"}         # what a namespace-aware builder leaves there
+    given = {"y": "v"}
+    entries = ["tag.select", "tag.select_one", "css.select", "css.select_one", "css.iselect", "css.closest", "css.match",
+               "css.filter", "css.compile"]
+    lines, obs, cases = [], [], []
+    for entry, selk, nsk, lim, flg, extra in itertools.product(entries, "sc", ("none", "given"), ("unset", "none", "0", "3"),
+                                                             ("unset", "5"), (0, 1)):
+        takes_limit = entry in ("tag.select", "css.select", "css.iselect")
+        if not takes_limit and lim != "unset":
+            continue
+        fake = _FakeSieve()
+        sel = _FakeSieve.SoupSieve() if selk == "c" else "b"
+        kw = {}
+        if nsk == "given":
+            kw["namespaces"] = given
+        if lim != "unset":
+            kw["limit"] = None if lim == "none" else int(lim)
+        if flg != "unset":
+            kw["flags"] = int(flg)
+        if extra:
+            kw["custom"] = True
+        saved = cssmod.soupsieve
+        cssmod.soupsieve = fake            # Tag.css builds CSS(self) with the module global
+        try:
+            if entry.startswith("tag."):
+                res = getattr(tag, entry[4:])(sel, **kw)
+            else:
+                res = getattr(CSS(tag, api=fake), entry[4:])(sel, **kw)
+        except Exception as e:
+            res = e
+        finally:
+            cssmod.soupsieve = saved
+        if isinstance(res, Exception) or len(fake.calls) != 1:
+            got = f"exc:{type(res).__name__}" if isinstance(res, Exception) else f"calls:{len(fake.calls)}"
+        else:
+            fn, cs, ct, cns, climit, cflags, ckw = fake.calls[0]
+            nss = "none" if cns is None else "given" if cns is given else "tagns" if cns is tag._namespaces else "other"
+            lims = "-" if climit == "-" else "~" if climit is None else str(climit)
+            sels = "c" if cs is sel and selk == "c" else "s" if cs == "b" else "other"
+            got = (f"fn={fn} sel={sels} tag={1 if ct is tag else 0} ns={nss} limit={lims} flags={cflags} "
+                   f"extra={1 if ckw == {'custom': True} else 0 if not ckw else 'other'} wrap={1 if isinstance(res, ResultSet) else 0}")
+        lines.append(f"c10 cssd {entry} {selk} {nsk} {lim} {flg} {extra}")
+        obs.append(got)
+        cases.append({"op": "css-dispatch", "entry": entry, "selector": "precompiled" if selk == "c" else "str", "namespaces": nsk,
+                      "limit": lim, "flags": flg, "extra_kw": extra})
+    for line, rep_, got, c in zip(lines, drv.ask(lines), obs, cases):
+        ctx.case(("cssd", line))
+        ctx.count("cssd:" + c["entry"])
+        if rep_ != got:
+            ctx.corr_disagreements += 1
+            # the model is the documented forwarding (css.py docstrings): a difference is a failing input
+            ctx.violation("the CSS proxy does not hand soupsieve the documented arguments", case=c | {"line": line},
+                          expected=rep_, observed=got, model=rep_, stream="css-dispatch")
+    ctx.exhaustive_parts.append(f"CSS dispatch: all {len(lines)} combinations of entry point x selector kind x namespaces x limit x flags x extra keyword")
 
 
 DIRECTED = [
@@ -1131,6 +1247,8 @@ def run(ctx: Ctx):
     for start in (0, 1, 2):
         for nm in ("_id", "_missing", "_", "title", "doc", "missing", "bigTag", "big", "__x", "__wrapped__"):
             getattr_one(ctx, snap, start, nm, glines, gpend)
+
+    css_dispatch_stream(ctx, drv)
 
     # 2. generated trees x cases
     ntrees = ctx.n(500, 6000)
